@@ -12,14 +12,23 @@ use rlm_kanidm::verif_hooks::VerifModule;
 use rlm_kanidm_shared::config::KanidmRadiusConfig;
 use serde_json::json;
 
-const GROUPS: [(&str, &str); 4] = [
+const GROUPS: [(&str, &str); 5] = [
     ("ga@example.com", "aaaaaaaa-0000-4000-8000-000000000001"),
     ("gb@example.com", "bbbbbbbb-0000-4000-8000-000000000002"),
     ("gc@example.com", "cccccccc-0000-4000-8000-000000000003"),
     ("gx@example.com", "dddddddd-0000-4000-8000-000000000004"),
+    // a different group whose spn merely begins like ga's
+    ("ga@example.com.au", "aaaaaaaa-0000-4000-8000-000000000011"),
 ];
-/// the entries a required-group list is drawn from: (group index, by uuid?)
-const REQ: [(usize, bool); 4] = [(0, false), (0, true), (1, false), (2, true)];
+/// the entries a required-group list is drawn from: (the configured text, the group it names)
+const REQ: [(&str, Option<usize>); 5] = [
+    ("ga@example.com", Some(0)),
+    ("aaaaaaaa-0000-4000-8000-000000000001", Some(0)),
+    ("gb@example.com", Some(1)),
+    ("cccccccc-0000-4000-8000-000000000003", Some(2)),
+    // a bare name is neither a uuid nor an spn: it names no group
+    ("ga", None),
+];
 const VLANS: [u32; 3] = [10, 20, 30];
 
 fn perms(items: &[usize]) -> Vec<Vec<usize>> {
@@ -43,16 +52,16 @@ pub fn run(args: &[String]) -> ! {
     let rt = crate::srv::new_rt();
     // ordered user group lists: every permutation of every subset of the 4 groups
     let mut lists: Vec<Vec<usize>> = Vec::new();
-    for m in 0u32..16 {
-        let items: Vec<usize> = (0..4).filter(|i| m & (1 << i) != 0).collect();
+    for m in 0u32..32 {
+        let items: Vec<usize> = (0..5).filter(|i| m & (1 << i) != 0).collect();
         lists.extend(perms(&items));
     }
     let (mut evals, mut allowed_n, mut nbad) = (0u64, 0u64, 0u64);
-    for reqmask in 0u32..16 {
+    for reqmask in 0u32..32 {
         for vlanmask in 0u32..8 {
             for default_vlan in [1u32, 0] {
                 for reversed in [false, true] {
-                    let required: Vec<String> = REQ.iter().enumerate().filter(|(i, _)| reqmask & (1 << i) != 0).map(|(_, (g, by_uuid))| if *by_uuid { GROUPS[*g].1.to_string() } else { GROUPS[*g].0.to_string() }).collect();
+                    let required: Vec<String> = REQ.iter().enumerate().filter(|(i, _)| reqmask & (1 << i) != 0).map(|(_, (text, _))| text.to_string()).collect();
                     let mut maps: Vec<serde_json::Value> = (0..3).filter(|g| vlanmask & (1 << g) != 0).map(|g| json!({"spn": GROUPS[g].0, "vlan": VLANS[g]})).collect();
                     if reversed {
                         // the order in which mappings are configured must not matter
@@ -70,7 +79,7 @@ pub fn run(args: &[String]) -> ! {
                         evals += 1;
                         let groups: Vec<Group> = l.iter().map(|g| Group { spn: GROUPS[*g].0.to_string(), uuid: GROUPS[*g].1.to_string() }).collect();
                         let (got_allowed, got_vlan) = module.decide(&groups);
-                        let want_allowed = l.iter().any(|g| REQ.iter().enumerate().any(|(i, (rg, _))| reqmask & (1 << i) != 0 && rg == g));
+                        let want_allowed = l.iter().any(|g| REQ.iter().enumerate().any(|(i, (_, rg))| reqmask & (1 << i) != 0 && *rg == Some(*g)));
                         let want_vlan = l.iter().rev().find(|g| **g < 3 && vlanmask & (1 << **g) != 0).map(|g| VLANS[*g]).unwrap_or(default_vlan);
                         if want_allowed {
                             allowed_n += 1;
@@ -94,7 +103,7 @@ pub fn run(args: &[String]) -> ! {
     ctx.set("distinct_nontrivial", allowed_n);
     ctx.set("cases_in_which_the_user_is_admitted", allowed_n);
     ctx.set("mismatches", nbad);
-    ctx.set("rule", "16 required-group lists (subsets of: ga by spn, ga by uuid, gb by spn, gc by uuid) x 8 VLAN mapping sets over ga, gb, gc (configured in both orders) x default VLAN {1, 0} x all 65 ordered lists of user groups drawn from ga, gb, gc and an unrelated group");
+    ctx.set("rule", "32 required-group lists (subsets of: ga by spn, ga by uuid, gb by spn, gc by uuid, the bare name `ga`) x 8 VLAN mapping sets over ga, gb, gc (configured in both orders) x default VLAN {1, 0} x all 326 ordered lists of user groups drawn from ga, gb, gc, an unrelated group and a group whose spn begins with ga's spn");
     ctx.set("exhaustive", true);
     ctx.assume("the decision functions are reached through a feature-gated accessor on a module built from a real configuration; fetching the user's token from the server (HTTP) is not part of this check");
     ctx.finish();
